@@ -63,4 +63,4 @@ Example C36_example :
   fs_get (write_private_key_file [] 191 1 [9]) 1 = Some (256, [9]) /\                         (* umask 0277: 0400 *)
   exists bs, asbytes (PEc 0 5 7) = Ok bs /\
              from_blob (fun _ => true) (fun _ _ => true) (fun _ _ _ => true) 1 bs = Ok (PEc 0 5 7, false).
-Proof. repeat split; try reflexivity. eexists. split; vm_compute; reflexivity. Qed.
+Proof. do 4 (split; [vm_compute; reflexivity|]). eexists. split; [vm_compute; reflexivity|]. vm_compute. reflexivity. Qed.
